@@ -355,5 +355,204 @@ theorem parse_compact (j : Json) (h : numsOk j = true) : parse (compact j) = som
   rw [List.append_nil] at this
   rw [this]
 
+/-! ### CSV: a reader gets back the fields that were written -/
+
+theorem not_special_of_not_needsQuotes (t : List Char) (h : needsQuotes t = false) :
+    ∀ c ∈ t, c ≠ ',' ∧ c ≠ '"' ∧ c ≠ '\n' := by
+  intro c hc
+  unfold needsQuotes at h
+  have := List.any_eq_false.1 h c hc
+  simp only [Bool.or_eq_true, beq_iff_eq, not_or] at this
+  exact ⟨this.1.1.1, this.1.1.2, this.1.2⟩
+
+theorem readAux_plain_run (t rest cur : List Char) (acc : List (List Char)) (h : ∀ c ∈ t, c ≠ ',') :
+    readAux (t ++ rest) .plain cur acc = readAux rest .plain (t.reverse ++ cur) acc := by
+  induction t generalizing cur with
+  | nil => rfl
+  | cons c cs ih =>
+    have hc : ¬ c = ',' := h c (List.mem_cons_self ..)
+    rw [List.cons_append, readAux]
+    simp only [hc, if_false]
+    rw [ih _ (fun x hx => h x (List.mem_cons_of_mem _ hx))]
+    simp
+
+theorem readAux_quoted_run (t tail cur : List Char) (acc : List (List Char)) :
+    readAux (doubleQuotes t ++ '"' :: tail) .quoted cur acc = readAux tail .quoteSeen (t.reverse ++ cur) acc := by
+  induction t generalizing cur with
+  | nil => simp [doubleQuotes, readAux]
+  | cons c cs ih =>
+    by_cases hc : c = '"'
+    · subst hc
+      simp only [doubleQuotes, if_true, List.cons_append]
+      rw [readAux]
+      simp only [if_true]
+      rw [readAux]
+      simp only [if_true]
+      rw [ih]; simp
+    · simp only [doubleQuotes, hc, if_false, List.cons_append]
+      rw [readAux]
+      simp only [hc, if_false]
+      rw [ih]; simp
+
+/-- a written field at the end of the row -/
+theorem readAux_field_end (t : List Char) (acc : List (List Char)) :
+    readAux (csvField t) .start [] acc = some ((t :: acc).reverse) := by
+  unfold csvField
+  cases hq : needsQuotes t with
+  | true =>
+    simp only [if_true]
+    rw [readAux]
+    simp only [if_true]
+    have := readAux_quoted_run t [] [] acc
+    simp only [List.append_nil] at this
+    rw [this]
+    simp [readAux]
+  | false =>
+    simp only [Bool.false_eq_true, if_false]
+    cases t with
+    | nil => simp [readAux]
+    | cons c cs =>
+      have hs := not_special_of_not_needsQuotes _ hq
+      have hc := hs c (List.mem_cons_self ..)
+      rw [readAux]
+      simp only [hc.2.1, hc.1, if_false]
+      have := readAux_plain_run cs [] [c] acc (fun x hx => (hs x (List.mem_cons_of_mem _ hx)).1)
+      simp only [List.append_nil] at this
+      rw [this]
+      simp [readAux]
+
+/-- a written field followed by a comma -/
+theorem readAux_field_comma (t r : List Char) (acc : List (List Char)) :
+    readAux (csvField t ++ ',' :: r) .start [] acc = readAux r .start [] (t :: acc) := by
+  unfold csvField
+  cases hq : needsQuotes t with
+  | true =>
+    simp only [if_true, List.cons_append, List.append_assoc, List.nil_append]
+    rw [readAux]
+    simp only [if_true]
+    rw [readAux_quoted_run t (',' :: r) [] acc, readAux]
+    simp [show ¬ (',' = '"') by decide]
+  | false =>
+    simp only [Bool.false_eq_true, if_false]
+    cases t with
+    | nil =>
+      rw [List.nil_append, readAux]
+      simp [show ¬ (',' = '"') by decide]
+    | cons c cs =>
+      have hs := not_special_of_not_needsQuotes _ hq
+      have hc := hs c (List.mem_cons_self ..)
+      rw [List.cons_append, readAux]
+      simp only [hc.2.1, hc.1, if_false]
+      rw [readAux_plain_run cs (',' :: r) [c] acc (fun x hx => (hs x (List.mem_cons_of_mem _ hx)).1), readAux]
+      simp
+
+theorem readAux_join (cells : List (List Char)) (hne : cells ≠ []) (acc : List (List Char)) :
+    readAux (joinWith [','] (cells.map csvField)) .start [] acc = some (acc.reverse ++ cells) := by
+  induction cells generalizing acc with
+  | nil => exact absurd rfl hne
+  | cons x r ih =>
+    cases r with
+    | nil => simp [joinWith, readAux_field_end]
+    | cons y r' =>
+      have e : joinWith [','] ((x :: y :: r').map csvField)
+          = csvField x ++ ',' :: joinWith [','] ((y :: r').map csvField) := by simp [joinWith]
+      rw [e, readAux_field_comma, ih (by simp)]
+      simp
+
+/-- ROW ROUND TRIP: the escaped, comma-joined fields read back as exactly those fields -/
+theorem readRow_join (cells : List (List Char)) (hne : cells ≠ []) :
+    readRow (joinWith [','] (cells.map csvField)) = some cells := by
+  simpa [readRow] using readAux_join cells hne []
+
+/-! ### CSV: a file cuts back into the records that were written -/
+
+/-- text that leaves the record splitter where it was: outside quotes, no record ended -/
+def Balanced (t : List Char) : Prop :=
+  ∀ (rest cur : List Char) (acc : List (List Char)),
+    splitRecordsAux (t ++ rest) false cur acc = splitRecordsAux rest false (t.reverse ++ cur) acc
+
+theorem balanced_nil : Balanced [] := by intro rest cur acc; rfl
+
+theorem balanced_append (a b : List Char) (ha : Balanced a) (hb : Balanced b) : Balanced (a ++ b) := by
+  intro rest cur acc
+  rw [List.append_assoc, ha, hb]
+  simp
+
+theorem balanced_plain (t : List Char) (h : ∀ c ∈ t, c ≠ '"' ∧ c ≠ '\n') : Balanced t := by
+  intro rest cur acc
+  induction t generalizing cur with
+  | nil => rfl
+  | cons c cs ih =>
+    have hc := h c (List.mem_cons_self ..)
+    rw [List.cons_append, splitRecordsAux]
+    simp only [hc.1, hc.2, if_false, false_and]
+    rw [ih (fun x hx => h x (List.mem_cons_of_mem _ hx))]
+    simp
+
+theorem splitRecordsAux_quoted_run (t rest cur : List Char) (acc : List (List Char)) :
+    splitRecordsAux (doubleQuotes t ++ rest) true cur acc
+      = splitRecordsAux rest true ((doubleQuotes t).reverse ++ cur) acc := by
+  induction t generalizing cur with
+  | nil => rfl
+  | cons c cs ih =>
+    by_cases hc : c = '"'
+    · subst hc
+      simp only [doubleQuotes, if_true, List.cons_append]
+      rw [splitRecordsAux]
+      simp only [if_true, Bool.not_true]
+      rw [splitRecordsAux]
+      simp only [if_true, Bool.not_false]
+      rw [ih]; simp
+    · simp only [doubleQuotes, hc, if_false, List.cons_append]
+      rw [splitRecordsAux]
+      simp only [hc, if_false, show (true = false) = False by simp, and_false]
+      rw [ih]; simp
+
+theorem balanced_csvField (t : List Char) : Balanced (csvField t) := by
+  unfold csvField
+  cases hq : needsQuotes t with
+  | false =>
+    simp only [Bool.false_eq_true, if_false]
+    exact balanced_plain t (fun c hc =>
+      ⟨(not_special_of_not_needsQuotes t hq c hc).2.1, (not_special_of_not_needsQuotes t hq c hc).2.2⟩)
+  | true =>
+    simp only [if_true]
+    intro rest cur acc
+    simp only [List.cons_append, List.append_assoc, List.nil_append]
+    rw [splitRecordsAux]
+    simp only [if_true, Bool.not_false]
+    rw [splitRecordsAux_quoted_run, splitRecordsAux]
+    simp
+
+theorem balanced_join (cells : List (List Char)) : Balanced (joinWith [','] (cells.map csvField)) := by
+  induction cells with
+  | nil => exact balanced_nil
+  | cons x r ih =>
+    cases r with
+    | nil => simpa [joinWith] using balanced_csvField x
+    | cons y r' =>
+      have e : joinWith [','] ((x :: y :: r').map csvField)
+          = csvField x ++ ([','] ++ joinWith [','] ((y :: r').map csvField)) := by simp [joinWith]
+      rw [e]
+      exact balanced_append _ _ (balanced_csvField x)
+        (balanced_append _ _ (balanced_plain [','] (by decide)) ih)
+
+/-- FILE ROUND TRIP: the concatenated records of balanced rows cut back into exactly those rows -/
+theorem splitRecordsAux_records (rows : List (List Char)) (h : ∀ r ∈ rows, Balanced r)
+    (acc : List (List Char)) :
+    splitRecordsAux ((rows.map record).flatten) false [] acc = (acc.reverse ++ rows, []) := by
+  induction rows generalizing acc with
+  | nil => simp [splitRecordsAux]
+  | cons r rs ih =>
+    simp only [List.map_cons, List.flatten_cons, record, List.append_assoc, List.singleton_append]
+    rw [h r (List.mem_cons_self ..), splitRecordsAux]
+    simp only [show ¬ ('\n' = '"') by decide, if_false, and_self, if_true, List.append_nil, List.reverse_reverse]
+    rw [ih (fun x hx => h x (List.mem_cons_of_mem _ hx))]
+    simp
+
+theorem splitRecords_records (rows : List (List Char)) (h : ∀ r ∈ rows, Balanced r) :
+    splitRecords ((rows.map record).flatten) = (rows, []) := by
+  simpa [splitRecords] using splitRecordsAux_records rows h []
+
 end SinkRead
 end Compass
